@@ -437,7 +437,7 @@ def cfgfile(ctx, name, module, body):
 def check_C01(ctx):
     ctx.rule = ("TLC enumerates every duplicate-free insertion order over every subset of Ids x every acyclic is_a relation "
                 "(x every edge supply order at 3 ids); each completed behaviour is replayed into the real crate under several "
-                "order-preserving id concretisations and through every construction path (Builder x3 supply orders, defaults, "
+                "order-preserving id concretisations (refinement HpoAlgo => HpoCore model-checked over the whole pipeline) and through every construction path (Builder x3 supply orders, defaults, "
                 "as_bytes round trip, independently encoded binary v1-v3 with and without permuted records, hp.obo via both JAX loaders); "
                 "non-trivial = behaviour with at least one is_a edge; distinct = distinct TLC states (arena order, edge set/order)")
     outs = []
@@ -449,6 +449,9 @@ def check_C01(ctx):
         r = tlc(ctx, "mc/MC_Connect5.cfg", "mc/MC_Connect.tla", workers=14, timeout=3000)
         outs.append(r["out"])
     tlc(ctx, "mc/MC_ConnectLive.cfg", "mc/MC_Connect.tla", workers=4)   # termination of the recursion (WF, no constraint)
+    # the step-level machines (bound to the code by hook events) REFINE the abstract Builder (bound by replay): AlgoSpec => CoreSpec
+    # under the mapping of MC_Refine (half-filled cache and in-flight link calls are invisible); whole pipeline, 3 ids, <= 1 (2) facts
+    tlc(ctx, "mc/MC_Refine3q.cfg" if ctx.quick else "mc/MC_Refine3.cfg", "mc/MC_Refine.tla", workers=8 if ctx.quick else 14, timeout=3600)
     allout = concat(ctx, outs, "c01-lines.txt")
     n = replay_lines(allout)
     if n == 0:
